@@ -104,6 +104,20 @@ def check(ctx):
     check_gene_list(ctx)
     check_transposed_tables(ctx)
     check_every_pair_recorded(ctx)
+    # the marker files can be written for every outcome of the criteria --
+    # no marker in one direction, no significant gene at all, a chunk of
+    # a single pair (rules of C05 / sa/rules/idioms.py)
+    from .C05 import check_signs
+    check_signs(ctx, ('diff_exp.markers', 'diff_exp.p_value_mask',
+                      'diff_exp.p_value_markers'), advisory_rest=False)
+    from ..rules.idioms import check_diff_contiguity
+    n_c = 0
+    for fi_ in ctx.db.iter_functions():
+        if fi_.module.short.startswith('diff_exp.'):
+            n_c += check_diff_contiguity(ctx, fi_)
+    if n_c < 2:
+        raise AnalysisError('the contiguity tests of the marker workers '
+                            'were not recognised')
     from ..rules.forwarding import check_forwarding
     check_forwarding(ctx, {
         'p_th', 'q1_th', 'qdiff_th', 'log2_fold_th', 'q1_min_th',
